@@ -217,6 +217,16 @@ static unsigned char *wb[MAXW]; static size_t wn[MAXW]; static int nwb = 0;
 static unsigned char *snap[MAXW];
 static unsigned char *priv[MAXT][MAXW];
 static void *extra_p[64]; static size_t extra_n[64]; static int n_extra = 0;
+/* critical sections (omp critical / atomic / locks, and Cython's `with gil:` inside a region): what a thread writes while
+ * it is inside one is committed to `crit` at once and is what the next thread sees when it enters one - the threads stay
+ * isolated from each other everywhere else.  cmask[k] marks the bytes thread k wrote inside critical sections: those are
+ * merged from `crit`, not from the thread's private copy, and are no write-write conflict. */
+static unsigned char *crit[MAXW];
+static unsigned char *cmask[MAXT][MAXW];
+static unsigned char *cs_pre[MAXW], *cs_in[MAXW];
+static int cs_depth[MAXT];
+static int cur_iso = 0;
+static long g_cs_sections = 0;
 
 void sim_gomp_config(int T, int iso) { cfg_T = T < 1 ? 1 : (T > MAXT ? MAXT : T); cfg_iso = iso; }
 void sim_gomp_decisions(const uint32_t *d, long n) { dec = d; dec_n = n; dec_i = 0; }
@@ -277,15 +287,27 @@ static void merge(int T) {
             unsigned char *p = priv[k][b];
             if (!p) continue;
             if (!out) { out = malloc(wn[b]); wr = calloc(wn[b], 1); memcpy(out, snap[b], wn[b]); }
-            for (size_t i = 0; i < wn[b]; i++) if (p[i] != snap[b][i]) {
+            unsigned char *cm = cmask[k][b];
+            for (size_t i = 0; i < wn[b]; i++) if (p[i] != snap[b][i] && !(cm && cm[i])) {
                 if (wr[i] && out[i] != p[i]) g_conflict++;
                 wr[i] = 1; out[i] = p[i]; g_diff++;
             }
         }
+        if (crit[b]) {
+            if (!out) { out = malloc(wn[b]); wr = calloc(wn[b], 1); memcpy(out, snap[b], wn[b]); }
+            for (size_t i = 0; i < wn[b]; i++) if (crit[b][i] != snap[b][i]) {
+                if (wr[i] && out[i] != crit[b][i]) g_conflict++;      /* also written outside any critical section */
+                out[i] = crit[b][i]; g_diff++;
+            }
+            free(crit[b]); crit[b] = NULL;
+        }
         if (out) { memcpy(wb[b], out, wn[b]); free(out); free(wr); }
         else memcpy(wb[b], snap[b], wn[b]);
     }
-    for (int k = 0; k < T; k++) for (int b = 0; b < nwb; b++) { free(priv[k][b]); priv[k][b] = NULL; }
+    for (int k = 0; k < T; k++) for (int b = 0; b < nwb; b++) {
+        free(priv[k][b]); priv[k][b] = NULL;
+        if (cmask[k][b]) { free(cmask[k][b]); cmask[k][b] = NULL; }
+    }
 }
 
 static void tramp(void) {
@@ -295,7 +317,21 @@ static void tramp(void) {
 }
 
 /* dynamic-loop work sharing state (one loop at a time per region) */
-static long dl_next, dl_end, dl_incr, dl_chunk; static int dl_active = 0, dl_refs = 0, dl_prearmed = 0;
+/* Work-sharing loops with a dispatcher (dynamic / guided / runtime schedules).  Every thread of a team meets the
+ * work-sharing constructs of a region in the same order, so the n-th loop a thread enters is the same loop instance for
+ * all of them, whenever each of them gets there (with `nowait` one thread may be done with a loop before another one
+ * has entered it).  Instances live in a small ring indexed by that per-thread sequence number. */
+#define DL_RING 64
+typedef struct { long id, next, end, incr, chunk; } dl_inst_t;
+static dl_inst_t dl_tab[DL_RING];
+static long ws_seq[MAXT + 1];           /* loops entered so far, per thread of the team (slot MAXT: outside any team) */
+static dl_inst_t *dl_cur[MAXT + 1];     /* the loop instance a thread is iterating */
+static int dl_prearmed = 0;
+static int dl_slot(void) { return (in_par && cur >= 0) ? cur : MAXT; }
+static void dl_region_reset(int prearmed) {
+    for (int i = 0; i < DL_RING; i++) if (!(prearmed && i == 0)) dl_tab[i].id = -1;
+    for (int k = 0; k < MAXT; k++) { ws_seq[k] = prearmed ? 1 : 0; dl_cur[k] = prearmed ? &dl_tab[0] : NULL; }
+}
 
 static void run_team(void (*fn)(void *), void *data, unsigned nt) {
     int T = nt ? (int)nt : cfg_T;
@@ -305,13 +341,15 @@ static void run_team(void (*fn)(void *), void *data, unsigned nt) {
     dl_yields = 0;
     if (T > g_maxteam) g_maxteam = T;
     if (T == 1 && !cfg_iso) {           /* fast path: one thread, shared memory */
-        in_par = 1; team = 1; cur = 0; if (!dl_prearmed) dl_active = 0; dl_prearmed = 0;
+        in_par = 1; team = 1; cur = 0; dl_region_reset(dl_prearmed); dl_prearmed = 0;
         fn(data);
         in_par = 0; cur = -1; team = 1;
         return;
     }
-    team = T; in_par = 1; g_fn = fn; g_data = data; if (!dl_prearmed) dl_active = 0; dl_prearmed = 0;
+    team = T; in_par = 1; g_fn = fn; g_data = data; dl_region_reset(dl_prearmed); dl_prearmed = 0;
     int iso = cfg_iso;
+    cur_iso = iso;
+    for (int k = 0; k < T; k++) cs_depth[k] = 0;
     if (iso) { collect_watch(); take_snapshot(); g_iso_regions++; }
     for (int k = 0; k < T; k++) {
         if (!stk[k]) stk[k] = malloc(STK);
@@ -339,7 +377,34 @@ static void run_team(void (*fn)(void *), void *data, unsigned nt) {
         swapcontext(&sched_ctx, &tctx[cur]);
         if (iso) save_private(cur);
     }
-    in_par = 0; cur = -1; team = 1;
+    in_par = 0; cur = -1; team = 1; cur_iso = 0;
+}
+
+static void cs_enter(void) {
+    g_sync_seen++;
+    if (!(in_par && team > 1 && cur_iso && cur >= 0)) return;
+    if (cs_depth[cur]++ > 0) return;
+    g_cs_sections++;
+    for (int b = 0; b < nwb; b++) {
+        cs_pre[b] = realloc(cs_pre[b], wn[b]); memcpy(cs_pre[b], wb[b], wn[b]);
+        if (crit[b]) for (size_t i = 0; i < wn[b]; i++) if (crit[b][i] != snap[b][i]) wb[b][i] = crit[b][i];
+        cs_in[b] = realloc(cs_in[b], wn[b]); memcpy(cs_in[b], wb[b], wn[b]);
+    }
+}
+static void cs_exit(void) {
+    if (!(in_par && team > 1 && cur_iso && cur >= 0)) return;
+    if (cs_depth[cur] <= 0 || --cs_depth[cur] > 0) return;
+    for (int b = 0; b < nwb; b++) {
+        if (!cs_in[b]) continue;
+        for (size_t i = 0; i < wn[b]; i++) {
+            if (wb[b][i] != cs_in[b][i]) {
+                if (!crit[b]) { crit[b] = malloc(wn[b]); memcpy(crit[b], snap[b], wn[b]); }
+                crit[b][i] = wb[b][i];
+                if (!cmask[cur][b]) cmask[cur][b] = calloc(wn[b], 1);
+                cmask[cur][b][i] = 1;
+            } else wb[b][i] = cs_pre[b][i];      /* not written in the section: back to this thread's own view */
+        }
+    }
 }
 
 void GOMP_parallel(void (*fn)(void *), void *data, unsigned nt, unsigned flags) {
@@ -374,17 +439,25 @@ bool GOMP_single_start(void) { static long last_region = -1; if (!in_par || team
 /* Synchronisation constructs: snapshot isolation would be unsound for a region
  * that relies on them, so they are recorded; the harness re-runs the call with
  * isolation off when g_sync_seen is set and says so in the evidence file. */
-void GOMP_atomic_start(void) { g_sync_seen++; }
-void GOMP_atomic_end(void) {}
-void GOMP_critical_start(void) { g_sync_seen++; }
-void GOMP_critical_end(void) {}
-void GOMP_critical_name_start(void **p) { (void)p; g_sync_seen++; }
-void GOMP_critical_name_end(void **p) { (void)p; }
+void GOMP_atomic_start(void) { cs_enter(); }
+void GOMP_atomic_end(void) { cs_exit(); }
+void GOMP_critical_start(void) { cs_enter(); }
+void GOMP_critical_end(void) { cs_exit(); }
+void GOMP_critical_name_start(void **p) { (void)p; cs_enter(); }
+void GOMP_critical_name_end(void **p) { (void)p; cs_exit(); }
 typedef struct { int dummy; } omp_lock_t_;
-void omp_init_lock(void *l) { (void)l; g_sync_seen++; }
+void omp_init_lock(void *l) { (void)l; }
 void omp_destroy_lock(void *l) { (void)l; }
-void omp_set_lock(void *l) { (void)l; g_sync_seen++; }
-void omp_unset_lock(void *l) { (void)l; }
+void omp_set_lock(void *l) { (void)l; cs_enter(); }
+void omp_unset_lock(void *l) { (void)l; cs_exit(); }
+/* Cython's `with gil:` inside a parallel region is a critical section as well: the kernels are linked with
+ * --wrap=PyGILState_Ensure / --wrap=PyGILState_Release, so both come through here (outside a team they are only
+ * forwarded).  The acquisitions Cython makes for its own housekeeping at the start and end of a region write nothing
+ * and are therefore harmless. */
+extern int PyGILState_Ensure(void);
+extern void PyGILState_Release(int);
+int __wrap_PyGILState_Ensure(void) { int st = PyGILState_Ensure(); if (in_par && team > 1) cs_enter(); return st; }
+void __wrap_PyGILState_Release(int st) { if (in_par && team > 1) cs_exit(); PyGILState_Release(st); }
 
 /* Work-sharing loops with dynamic / guided / runtime schedules: chunks are
  * handed out to whoever asks, and who asks next is the scheduler's decision
@@ -400,24 +473,31 @@ static void yield_here(void) {
     /* stay runnable; give the scheduler a chance to pick someone else */
     swapcontext(&tctx[cur], &sched_ctx);
 }
-static bool dl_start(long start, long end, long incr, long chunk, long *istart, long *iend) {
-    if (!dl_active) { dl_next = start; dl_end = end; dl_incr = incr; dl_chunk = chunk > 0 ? chunk : 1; dl_active = 1; dl_refs = 0; }
-    dl_refs++;
-    yield_here();
-    long left = incr > 0 ? (dl_end - dl_next + incr - 1) / incr : (dl_next - dl_end - incr - 1) / (-incr);
+static bool dl_take(dl_inst_t *q, long *istart, long *iend) {
+    long incr = q->incr;
+    long left = incr > 0 ? (q->end - q->next + incr - 1) / incr : (q->next - q->end - incr - 1) / (-incr);
     if (left <= 0) return false;
-    long n = left < dl_chunk ? left : dl_chunk;
-    *istart = dl_next; *iend = dl_next + n * incr; dl_next = *iend; g_dyn_chunks++;
+    long n = left < q->chunk ? left : q->chunk;
+    *istart = q->next; *iend = q->next + n * incr; q->next = *iend; g_dyn_chunks++;
     return true;
 }
-static bool dl_next_chunk(long *istart, long *iend) {
+static bool dl_start(long start, long end, long incr, long chunk, long *istart, long *iend) {
+    int k = dl_slot();
+    long id = ws_seq[k]++;
+    dl_inst_t *q = &dl_tab[id % DL_RING];
+    if (k == MAXT || q->id != id) {          /* first of the team to get here (or no team at all): open the instance */
+        q->id = id; q->next = start; q->end = end; q->incr = incr; q->chunk = chunk > 0 ? chunk : 1;
+    }
+    dl_cur[k] = q;
     yield_here();
-    long incr = dl_incr;
-    long left = incr > 0 ? (dl_end - dl_next + incr - 1) / incr : (dl_next - dl_end - incr - 1) / (-incr);
-    if (left <= 0) return false;
-    long n = left < dl_chunk ? left : dl_chunk;
-    *istart = dl_next; *iend = dl_next + n * incr; dl_next = *iend; g_dyn_chunks++;
-    return true;
+    return dl_take(q, istart, iend);
+}
+static bool dl_next_chunk(long *istart, long *iend) {
+    int k = dl_slot();
+    yield_here();
+    dl_inst_t *q = dl_cur[k];
+    if (!q) return false;
+    return dl_take(q, istart, iend);
 }
 #define LOOP_START(name) \
     bool name(long s, long e, long i, long c, long *a, long *b) { return dl_start(s, e, i, c, a, b); }
@@ -460,18 +540,18 @@ bool GOMP_loop_ull_maybe_nonmonotonic_runtime_start(bool up, gull s, gull e, gul
     bool r = dl_start((long)s, (long)e, (long)i, 1, &x, &y); *a = (gull)x; *b = (gull)y; return r; }
 
 void GOMP_loop_end(void) {
-    if (in_par && team > 1) { if (--dl_refs <= 0) dl_active = 0; GOMP_barrier(); } else dl_active = 0;
+    dl_cur[dl_slot()] = NULL;
+    if (in_par && team > 1) GOMP_barrier();
 }
-void GOMP_loop_end_nowait(void) { if (--dl_refs <= 0) dl_active = 0; }
+void GOMP_loop_end_nowait(void) { dl_cur[dl_slot()] = NULL; }
 bool GOMP_loop_end_cancel(void) { GOMP_loop_end(); return false; }
 
 static void par_loop(void (*fn)(void *), void *data, unsigned nt, long s, long e, long i, long c) {
     if (in_par) { fn(data); return; }
     /* the outlined body of a combined construct only calls *_next: arm the loop here */
-    dl_next = s; dl_end = e; dl_incr = i; dl_chunk = c > 0 ? c : 1;
-    dl_active = 1; dl_refs = nt ? (int)nt : cfg_T; dl_prearmed = 1;
+    dl_tab[0].id = 0; dl_tab[0].next = s; dl_tab[0].end = e; dl_tab[0].incr = i; dl_tab[0].chunk = c > 0 ? c : 1;
+    dl_prearmed = 1;
     run_team(fn, data, nt);
-    dl_active = 0;
 }
 void GOMP_parallel_loop_dynamic(void (*fn)(void *), void *d, unsigned nt, long s, long e, long i, long c, unsigned f) { (void)f; par_loop(fn, d, nt, s, e, i, c); }
 void GOMP_parallel_loop_guided(void (*fn)(void *), void *d, unsigned nt, long s, long e, long i, long c, unsigned f) { (void)f; par_loop(fn, d, nt, s, e, i, c); }
